@@ -1,7 +1,7 @@
 (* The serializer's output seen as a token stream, and the well-formedness conditions of the round trip
    (C02).  Definitions only. *)
 From Delb.Base Require Import PyStr PyDict.
-From Delb.Gen Require Import GenNames GenNs.
+From Delb.Gen Require Import GenNames GenNs GenValidators.
 From Delb.Tree Require Import ATree Merge.
 From Delb.Ns Require Import Namespaces Prefixes.
 From Delb.Xml Require Import Plain Reader.
@@ -99,7 +99,8 @@ Definition render_attr_data (kv : str * str) : str * str := (fst kv, quote (esca
      exclusion: no character references are produced), text / comments / PI content of XML Chars other than CR;
    - attributes are listed in the order the serializer writes them (sorted by namespace and local name, as
      impl.extract presents them), each expanded name once;
-   - comment content passes CommentNode._validate_content, PI content has no "?>" and does not start with white
+   - comment content passes CommentNode._validate_content (the GENERATED validator comment_content_refused of
+     Gen/GenValidators.v; RoundTrip.comment_validator_ok derives the reader-side condition comment_ok), PI content has no "?>" and does not start with white
      space (guard of finding pi-content-leading-whitespace), the target is not "xml". *)
 Definition uri_ok (n : str) : Prop := Forall attr_char_ok n.
 Definition attr_wf (a : attr) : Prop :=
@@ -112,7 +113,7 @@ Fixpoint wf_node (n : node) : Prop :=
       /\ sort_attrs attrs = attrs /\ nodup_keys attrs = true
       /\ (fix all (l : list node) : Prop := match l with [] => True | k :: r => wf_node k /\ all r end) kids
   | Text s => Forall text_char_ok s
-  | Comment s => comment_ok s = true /\ Forall text_char_ok s
+  | Comment s => comment_content_refused s = false /\ Forall text_char_ok s
   | PI t c => is_ncname t = true /\ is_xml_target t = false /\ pi_content_ok c = true /\ starts_ws c = false
               /\ Forall text_char_ok c
   end.
